@@ -25,6 +25,13 @@ def generic(root, prop, tier, seed, res):
                     y["what"] = "variant '%s' does not compile although variant '%s' of the same definition does: %s" % (
                         x["variant_label"], siblings[0]["label"], x["what"][:300])
                     res.violations.append(y)
+    # a well-formed definition rejected with a *scoping* diagnostic contradicts the documented scoping
+    if prop == "C16":
+        for x in cf:
+            if "Unbound variable" in x["what"] or "defined multiple times" in x["what"]:
+                y = dict(x)
+                y["what"] = "well-formed definition rejected by a scoping diagnostic: " + x["what"][:300]
+                res.violations.append(y)
     return eng
 
 
